@@ -14,7 +14,7 @@ RULE = ("base calls {rate, rate+ranks, rate+scores, predict_win, predict_draw, p
         "x per-call options {none, tau+limit_sigma}; fault grammar injected at EVERY position: teams <- 13 wrong containers; team i <- 8 "
         "wrong values; player (i,j) <- 14 wrong values incl. the four foreign classes' ratings; ranks/scores <- 11 wrong containers / "
         "lengths; element p of ranks/scores <- 10 non-numbers; both selectors (3 combinations); acceptance side: 16 well-formed "
-        "typings of rank/score values must return normally.  Oracle: TypeError/ValueError only, never a return; every rating "
+        "typings of rank/score values and games of 257 and 300 teams must return normally.  Oracle: TypeError/ValueError only, never a return; every rating "
         "reachable from the arguments, the argument containers and model.__dict__ unchanged.  E2/I4: the 13 representative "
         "malformed calls are self-loops from every state reachable by one call of the reduced alphabet (thorough: by three calls of the small alphabet).  non-trivial = every injected fault "
         "(distinct by construction: op x shape x position x fault)")
@@ -261,6 +261,7 @@ def execute(kind, op, shape_name, opt, fid):
         reachable_ratings(v, watched)
     snaps = [(o, dict(o.__dict__)) for o in watched]
     msnap = e2.snap_model(model)
+    gsnap = e2.snap_globals()
     struct0 = (shape_of(targ), {k: shape_of(v) for k, v in kw.items()})
     call_kw = {k: materialise(v) for k, v in kw.items()}
     fn = getattr(model, "rate" if op.startswith("rate") else op)
@@ -283,6 +284,9 @@ def execute(kind, op, shape_name, opt, fid):
             break
     if e2.snap_model(model) != msnap:
         side.append(f"modified the model: {e2.diff_snap(msnap, e2.snap_model(model))}")
+    g1 = e2.snap_globals()
+    if g1 != gsnap and outcome != "returned":
+        side.append(f"modified class / module level state: {[(a, b) for a, b in zip(gsnap, g1) if a != b][:2]}")
     if (shape_of(targ), {k: shape_of(v) for k, v in kw.items()}) != struct0:
         side.append("modified its argument containers")
     return {"expect": expect, "outcome": outcome, "exc": type(res).__name__ if outcome != "returned" else None,
@@ -309,8 +313,31 @@ def eval_case(kind, op, shape_name, opt, fid):
     return msgs
 
 
+BIG_N = (257, 300)  # team counts beyond CPython's small-int cache and beyond anything the suite rates
+
+
+def eval_big(kind, n, sel):
+    model = spaces.model_class(kind)()
+    teams = [[model.rating()] for _ in range(n)]
+    vals = [(i * 7) % n for i in range(n)] if sel != "omitted" else None
+    try:
+        with core.watchdog(120):
+            if sel == "ranks":
+                out = model.rate(teams, ranks=vals)
+            elif sel == "scores":
+                out = model.rate(teams, scores=[float(v) for v in vals])
+            else:
+                out = model.rate(teams)
+    except Exception as e:
+        return [f"well-formed call {kind}.rate({n} single-player teams, {sel}) raised {type(e).__name__}: {str(e)[:160]}"]
+    if len(out) != n:
+        return [f"{kind}.rate({n} teams) returned {len(out)} teams"]
+    return []
+
+
 def units(ctx):
-    return [(kind, op) for kind in spaces.KINDS for op in OPS] + [("e2", kind) for kind in spaces.KINDS]
+    return ([(kind, op) for kind in spaces.KINDS for op in OPS] + [("e2", kind) for kind in spaces.KINDS]
+            + [(kind, "big", n, sel) for kind in spaces.KINDS for n in BIG_N for sel in ("ranks", "scores", "omitted")])
 
 
 def fault_class(fid):
@@ -322,6 +349,13 @@ def fault_class(fid):
 def run_unit(unit, ctx):
     acc = core.Acc()
     if unit[0] == "e2":
+        return acc
+    if unit[1] == "big":
+        kind, _, n, sel = unit
+        acc.evals += 1
+        acc.nontrivial += 1
+        for msg in eval_big(kind, n, sel):
+            acc.violation(PID, f"{kind}:rate:big-accept", msg, {"kind": kind, "big": n, "sel": sel})
         return acc
     kind, op = unit
     for shape_name, shape in SHAPES.items():
@@ -338,6 +372,8 @@ def run_unit(unit, ctx):
 
 
 def replay(case):
+    if "big" in case:
+        return eval_big(case["kind"], case["big"], case["sel"])
     if case.get("engine") == "E2":
         core.deterministic_ids(0)
         return e2.replay(case)
